@@ -140,3 +140,51 @@ fn replay_grid_idconv_op_cursor_to_opid() {
         op_cursor_to_opid_body(ctr, true);
     }
 }
+
+/// import_obj (string form of an object id, "<counter>@<actor hex>") on a document whose actor
+/// table holds actor 0x33: for EVERY string `d@xy` with d a decimal digit and x, y ANY ASCII
+/// bytes: Ok exactly when xy is the hex of a known actor, an error otherwise - never a panic
+/// (a non-hex or odd-length actor part must be reported, not unwrapped).
+#[kani::proof]
+#[kani::unwind(8)]
+#[kani::stub(crate::ActorId::random, stub_actor_random)]
+#[kani::stub(std::collections::hash_map::RandomState::new, stub_random_state_new)]
+#[kani::stub(alloc::fmt::format, stub_format)]
+fn idconv_import_obj_total() {
+    let d: u8 = kani::any();
+    kani::assume(d >= b'0' && d <= b'9');
+    let x: u8 = kani::any();
+    let y: u8 = kani::any();
+    kani::assume(x < 0x80 && y < 0x80);
+    import_obj_body([d, b'@', x, y]);
+}
+
+fn import_obj_body(b: [u8; 4]) {
+    let mut doc = crate::Automerge::new();
+    doc.ops.actors.push(crate::ActorId::from(&[0x33u8][..]));
+    let s = unsafe { std::str::from_utf8_unchecked(&b) };
+    let r = doc.import_obj(s);
+    let is33 = b[2] == b'3' && b[3] == b'3';
+    match &r {
+        Ok(id) => {
+            assert!(is33);
+            match id {
+                crate::ObjId::Id(c, _, idx) => assert!(*c == (b[0] - b'0') as u64 && *idx == 0),
+                crate::ObjId::Root => panic!("not the root"),
+            }
+        }
+        Err(_) => assert!(!is33),
+    }
+    kani::cover!(r.is_ok());
+    kani::cover!(r.is_err());
+    std::mem::forget(r);
+    std::mem::forget(doc);
+}
+
+/// Native replay grid for idconv_import_obj_total.
+#[test]
+fn replay_grid_idconv_import_obj() {
+    for s in [*b"1@33", *b"1@zz", *b"1@3z", *b"0@34", *b"9@  "] {
+        import_obj_body(s);
+    }
+}
